@@ -258,6 +258,9 @@ struct WorkerOut {
     violations: Vec<FoundViolation>,
     samples: Vec<Value>,
     determinism_checked: u64,
+    /// self-check mismatches that did not recur when the three executions were repeated
+    #[serde(default)]
+    determinism_transient: u64,
     determinism_mismatch: Vec<String>,
     completed: bool,
 }
@@ -436,6 +439,25 @@ fn inflight_path(prop: &str, i: u64) -> PathBuf {
 
 enum Unit {
     Sweep(u64),
+}
+
+/// A self-check mismatch is confirmed by repeating the three executions (seeded, seeded, replay of
+/// the recorded action list) twice more: it stands if any repetition disagrees again — with itself
+/// or between the rounds. A mismatch that never recurs is counted and reported in the evidence
+/// (`determinism_selfcheck_transient_mismatches`), not raised as a harness error.
+fn confirm_mismatch<E: Engine>(prop: &str, cfg: &E::Config, rng: &Rng, max: usize, taken: &[E::Action]) -> bool {
+    let mut hashes = Vec::new();
+    for _ in 0..2 {
+        for replay in [false, false, true] {
+            let mut c = RunCtx::new(true);
+            let mut ch = if replay { Chooser::replay(taken.to_vec()) } else { Chooser::seeded(rng.clone(), max) };
+            if exec::<E>(prop, cfg, &mut ch, &mut c).is_some() {
+                return true;
+            }
+            hashes.push(c.trace_hash());
+        }
+    }
+    hashes.windows(2).any(|w| w[0] != w[1])
 }
 
 fn worker_main<E: Engine>(args: &Args, i: u64, n: u64) -> i32 {
@@ -665,7 +687,13 @@ fn worker_main<E: Engine>(args: &Args, i: u64, n: u64) -> i32 {
                 }
                 match hit {
                     Some((v, taken)) if E::allow_unstable() => found(&mut out, &mut seen_keys, seed, "unstable", v.fact("unstable", true), &cfg, &taken),
-                    _ => out.determinism_mismatch.push(format!("seed {seed}: second seeded run differs")),
+                    _ => {
+                        if confirm_mismatch::<E>(prop, &cfg, &rng, max, &taken) {
+                            out.determinism_mismatch.push(format!("seed {seed}: second seeded run differs"));
+                        } else {
+                            out.determinism_transient += 1;
+                        }
+                    }
                 }
             } else if v3.is_some() || c3.trace_hash() != h1 {
                 let t2 = c2.trace.unwrap_or_default();
@@ -684,12 +712,14 @@ fn worker_main<E: Engine>(args: &Args, i: u64, n: u64) -> i32 {
                 }
                 if let (Some((v, taken)), true) = (hit, E::allow_unstable()) {
                     found(&mut out, &mut seen_keys, seed, "unstable", v.fact("unstable", true), &cfg, &taken);
+                } else if confirm_mismatch::<E>(prop, &cfg, &rng, max, &taken) {
+                    out.determinism_mismatch.push(format!(
+                        "seed {seed}: replay of recorded actions differs at event {at:?}: {:?} vs {:?}",
+                        at.and_then(|i| t2.get(i)),
+                        at.and_then(|i| t3.get(i))
+                    ));
                 } else {
-                out.determinism_mismatch.push(format!(
-                    "seed {seed}: replay of recorded actions differs at event {at:?}: {:?} vs {:?}",
-                    at.and_then(|i| t2.get(i)),
-                    at.and_then(|i| t3.get(i))
-                ));
+                    out.determinism_transient += 1;
                 }
             }
             for (s, n) in c2.stats.iter().chain(c3.stats.iter()) {
@@ -1219,6 +1249,7 @@ fn parent_main<E: Engine>(args: &Args) -> i32 {
         merged.actions_total += w.actions_total;
         merged.all_hashes += w.all_hashes;
         merged.determinism_checked += w.determinism_checked;
+        merged.determinism_transient += w.determinism_transient;
         merged.determinism_mismatch.extend(w.determinism_mismatch);
         for (k, v) in w.stats {
             *merged.stats.entry(k).or_insert(0) += v;
@@ -1506,6 +1537,7 @@ fn parent_main<E: Engine>(args: &Args) -> i32 {
             "counters": other,
             "probes_required_but_zero": missing,
             "determinism_selfcheck_runs": merged.determinism_checked,
+            "determinism_selfcheck_transient_mismatches": merged.determinism_transient,
             "budget_exhausted_before_run_count": !all_done,
             "worker_processes": n,
             "real_code": d.real,
